@@ -342,9 +342,9 @@ def enum_cases(tier):
 def hyp_cases(draw, tier):
     deep = draw(st.booleans())
     if deep:
-        spec = draw(gen.forest_specs(max_nodes=14, max_depth=10, max_width=2, unique=True, min_nodes=4))
+        spec = draw(gen.forest_specs(max_nodes=14, max_depth=10, max_width=2, unique=True, min_nodes=4, big=(20, 130)))
     else:
-        spec = draw(gen.forest_specs(max_nodes=16, max_depth=4, max_width=10, unique=True, min_nodes=4))
+        spec = draw(gen.forest_specs(max_nodes=16, max_depth=4, max_width=10, unique=True, min_nodes=4, big=(20, 130)))
     n = gen.spec_nodes(spec)
     return {"spec": spec, "start": draw(st.integers(-1, max(0, n - 1)))}
 
